@@ -6,7 +6,7 @@ set -u
 D=$1; PKG=$2; T=$3
 export GOFLAGS=-mod=mod GOPROXY=off
 WT=$(mktemp -d /tmp/mine/valwt.XXXX)
-git -C /repo worktree add -q --detach $WT/wt HEAD || exit 2
+git -C /repo worktree add -q --detach $WT/wt ${BASE:-HEAD} || exit 2
 cd $WT/wt
 res=""
 git apply $D/patch.diff || { res="$res patch-does-not-apply"; }
